@@ -133,7 +133,16 @@ fn drive<RK: RadioKind>(rk: &mut RK, bus: &Bus, sfi: usize, bwi: usize, cri: usi
                     // ... and the operation itself is started (start_rx / tx): the chip then runs with
                     // whatever is in its registers at that moment
                     if pkt.4 {
-                        block_on(rk.do_rx(if pkt.1 { lora_phy::RxMode::Continuous } else { lora_phy::RxMode::Single(pkt.0.max(1)) }))
+                        let mode = if pkt.1 { lora_phy::RxMode::Continuous } else { lora_phy::RxMode::Single(pkt.0.max(1)) };
+                        block_on(rk.do_rx(mode))?;
+                        // every other time the receiver hops: standby, new channel, reception started
+                        // again (what LoRa::rx_switch_channel does) - still the same modulation
+                        if pkt.0 % 2 == 0 {
+                            block_on(rk.set_standby())?;
+                            block_on(rk.set_channel(freq))?;
+                            block_on(rk.do_rx(mode))?;
+                        }
+                        Ok(())
                     } else {
                         block_on(rk.do_tx())
                     }
